@@ -30,8 +30,34 @@ PROPERTIES["C05"] = {
     "outside": ["quality of the inner minimisation of the penalty / augmented-Lagrangian solvers"],
     "units": [
         {"engine": "sre", "harness": "C05_penalty", "sources": ["C05_penalty.cpp"],
-         "quick": ["mix0"], "thorough": ["mix0"],
+         "quick": ["k=0,1,2;d=2", "k=3,4;d=2", "k=5,6;d=2", "k=7,8;d=2", "k=9,10;d=2", "k=6,3,2;d=2"],
+         "thorough": ["k=0,1,2;d=2", "k=3,4;d=2", "k=5,6;d=2", "k=7,8;d=2", "k=9,10;d=2", "k=6,3,2;d=2", "k=0,4,8;d=2", "k=5,10,1;d=2",
+                      "k=0,1,2;d=3;dim=1", "k=3,6;d=3", "k=7,4;d=3", "k=9,2;d=3", "k=1,2,5,6;d=2"],
          "encoded": ["nano::linear_penalty_function_t::do_vgrad", "nano::quadratic_penalty_function_t::do_vgrad",
                      "nano::augmented_lagrangian_function_t::do_vgrad", "nano::vgrad(constraint_t)", "nano::function_t::constrain"]},
+    ],
+}
+
+PROPERTIES["C14"] = {
+    "level": "other",
+    "level_text": "bounded symbolic verification: for every value of the symbolic float64 cells (fixed small sample counts, concrete missing patterns and schemas) the statistics, scaling, up-scaling and affine model conversion of the real code satisfy the advertised identities; solver verdict per obligation",
+    "level_note": SRE_NOTE,
+    "technique": SRE_TECH,
+    "explanation": "C14: scalar_stats_t (through the real datasource -> dataset -> flatten/targets stack), scale/upscale in the 4 modes, nano::upscale(weights,bias) on symbolic data.",
+    "assumptions": SRE_ASSUME + ["cells are boxed to [-8,8]; W, b, raw x unbounded reals; epsilon thresholds (epsilon2) are the library's own"],
+    "bounds": {"samples": "2..4", "columns": "2..5", "scaling modes": "all 4 for inputs and targets (pairs enumerated per configuration)",
+               "missing patterns": "5 concrete patterns incl. all-missing and single-sample columns"},
+    "outside": ["matrices larger than 4 x 5", "floating-point rounding relative to the magnitude of the summed terms (identities are proved over the reals)"],
+    "units": [
+        {"engine": "sre", "harness": "C14_scaling", "sources": ["C14_scaling.cpp"],
+         "quick": ["f=rrr;n=3;fs=2;ts=0", "f=rrr;n=3;fs=3;ts=3", "f=rrr;n=3;fs=1;ts=1;miss=1", "f=rsr;n=3;miss=1;fs=1;ts=2",
+                   "f=rmr;n=3;fs=3;ts=2", "f=rrr;n=3;miss=2;fs=0;ts=3", "f=rrr;n=3;miss=3;fs=3;ts=0", "f=Sr;n=2;fs=1;ts=1"],
+         "thorough": ["f=rrr;n=3;fs=%d;ts=%d;miss=%d" % (a, b, m) for a in range(4) for b in range(4) for m in (0, 1)] +
+                     ["f=rsr;n=3;miss=1;fs=1;ts=2", "f=rmr;n=3;fs=3;ts=2", "f=rrr;n=3;miss=2;fs=0;ts=3", "f=rrr;n=3;miss=3;fs=3;ts=0",
+                      "f=Sr;n=2;fs=1;ts=1", "f=Sr;n=2;fs=3;ts=2", "f=rrr;n=4;fs=2;ts=1", "f=rrr;n=4;fs=3;ts=3;miss=4", "f=srmr;n=3;fs=2;ts=3"],
+         "encoded": ["nano::scalar_stats_t::make_flatten_stats", "nano::scalar_stats_t::make_targets_stats", "(anonymous)::update(scalar_stats_t&)",
+                     "(anonymous)::done(scalar_stats_t&)", "nano::scalar_stats_t::scale", "nano::scalar_stats_t::upscale",
+                     "nano::upscale(stats, scaling, stats, scaling, weights, bias)", "(anonymous)::make_scaling", "nano::dataset_t::flatten",
+                     "nano::dataset_t::targets"]},
     ],
 }
